@@ -54,15 +54,29 @@ def Function.isAggregate (f : Function) : Bool := function_is_aggregate.contains
 def Function.isNumeric (f : Function) : Bool := f.isAggregate || function_is_numeric_extra.contains f
 def Function.isBoolean (f : Function) : Bool := function_is_boolean.contains f
 
-/-- `impl Display for Expr`: memo key, JSON key, group key, order key. -/
+def ArithOp.symbol : ArithOp → Str
+  | .Add => ['+'] | .Subtract => ['-'] | .Multiply => ['*'] | .Divide => ['/'] | .Modulo => ['%']
+
+def LogicalOp.upper : LogicalOp → Str
+  | .And => ofS "AND" | .Or => ofS "OR"
+
+def Op.debugName (o : Op) : Str := (reprStr o).toList.reverse.takeWhile (· != '.') |>.reverse
+
+mutual
+/-- `impl Display for Expr` (after the D40 fix): memo key, JSON key, group key, order key.
+    Operators, brackets and every function argument are shown. -/
 def Expr.display : Expr → Str
   | .field m f => (if m then ['-'] else []) ++ f.display
   | .val m v => (if m then ['-'] else []) ++ v
   | .func0 m f => (if m then ['-'] else []) ++ f.display ++ ['(', ')']
-  | .func m f l _ => (if m then ['-'] else []) ++ f.display ++ ['('] ++ l.display ++ [')']
-  | .arith l _ r => l.display ++ r.display
-  | .cmp l _ r => l.display ++ r.display
-  | .logic l _ r => l.display ++ r.display
+  | .func m f l args => (if m then ['-'] else []) ++ f.display ++ ['('] ++ l.display ++ Expr.displayArgs args ++ [')']
+  | .arith l op r => ['('] ++ l.display ++ [' '] ++ op.symbol ++ [' '] ++ r.display ++ [')']
+  | .cmp l op r => ['('] ++ l.display ++ [' '] ++ op.debugName ++ [' '] ++ r.display ++ [')']
+  | .logic l op r => ['('] ++ l.display ++ [' '] ++ op.upper ++ [' '] ++ r.display ++ [')']
+def Expr.displayArgs : List Expr → Str
+  | [] => []
+  | a :: as => [',', ' '] ++ a.display ++ Expr.displayArgs as
+end
 
 mutual
 def Expr.hasAggregate : Expr → Bool
